@@ -164,6 +164,11 @@ func (mem *Mempool) Update(height int64, txs []types.Tx) {
 	atomic.StoreInt64(&mem.height, height)
 
 	mem.Lock()
+	// A committed transaction must never be accepted again: it stays in (or enters) the cache of
+	// seen transactions.
+	for _, tx := range txs {
+		mem.cache.Push(tx)
+	}
 	// Remove transactions that are already in txs, also re-run txs through filters
 	mem.refreshMempoolTxs(txsMap)
 	mem.Unlock()
@@ -194,9 +199,10 @@ func (mem *Mempool) refreshMempoolTxs(blockTxsMap map[string]struct{}) {
 		memTx := e.Value.(*types.TxInPool)
 		// Remove the tx if it's alredy in a block, or rechecking fails
 		if _, ok := blockTxsMap[string(memTx.Tx)]; ok {
+			// committed: it leaves the list but stays in the cache, or the same bytes would be
+			// accepted and offered for inclusion again
 			mem.txs.Remove(e)
 			e.DetachPrev()
-			mem.cache.Remove(memTx.Tx)
 		} else if err := mem.recheckTx(memTx.Tx); err != nil {
 			mem.txs.Remove(e)
 			e.DetachPrev()
